@@ -280,6 +280,9 @@ func H_C10_objops() {
 		return ud
 	}
 	a, b := mk(VChoice(5)), mk(VChoice(5))
+	if VChoice(4) == 0 {
+		b = a // the same object on both sides (== is true without consulting __eq)
+	}
 	opA = a
 	L.G.Global.RawSetString("a", a)
 	L.G.Global.RawSetString("b", b)
